@@ -166,6 +166,10 @@ func cfgRule(kind, sel string) (*annotations.HttpRule, string, string, string) {
 		r.AdditionalBindings = []*annotations.HttpRule{{Pattern: &annotations.HttpRule_Get{Get: "/cfg/x"}}}
 	case "blank-path":
 		get("")
+	case "var-dblstar-not-last":
+		get("/cfg/{name=**}/rev") // "**" must be the last segment of the whole template, also when it sits inside a variable
+	case "var-dblstar-prefix-not-last":
+		get("/cfg/{name=a/**}/{parent}")
 	case "custom-any-then-get":
 		// a custom pattern for every HTTP method and, on the same path, a GET binding of its own:
 		// the exact method wins, the wildcard takes the rest (probed with GET)
